@@ -2,6 +2,7 @@
 //! real interpreter in /repo (built with the `verif` feature).
 mod ast;
 mod bcfam;
+mod bigfam;
 mod encfam;
 mod gcfam;
 mod gen;
@@ -62,6 +63,8 @@ fn main() {
         "gen-sem" => semfam::gen_sem(&args),
         "gen-corpus" => semfam::gen_corpus(&args),
         "gen-bc" => bcfam::gen_bc(&args),
+        "gen-big" => bigfam::gen_big(&args),
+        "gen-ops" => semfam::gen_ops(&args),
         "show" => semfam::show(&args),
         other => {
             eprintln!("unknown command {other}");
